@@ -1159,6 +1159,27 @@ def roundtrip_checks(ctx, batch, recipe, root, el_index, el, stream, parsed):
             # outside the property's quantifier: run, record what happens
             same = got == o_normalise(forest)
             ctx.count(f"excluded-outcome:{reason}:{'same-tree' if same else 'different-tree'}")
+        if f == "minimal":
+            # the class on which the rendered text is a text of C04's writer (render_is_written / reparse_roundtrip_tokenized)
+            wreq = f"c05 written {cfg_tok()} {'x' if xml else 'h'} {fmt_tok(f)} {tree_tokens(wrap_root(forest))}"
+
+            want_w = o_normalise(forest, decl_as_pi=True)        # now: the configuration of the case is current
+
+            def on_written(rep, text=text, got=got, want_w=want_w, case=case, wreq=wreq, stream=stream):
+                fields = dict(p.split("=", 1) for p in rep.split(" # "))
+                if fields.get("rw") != "1":
+                    ctx.count(f"written:{stream}:outside")
+                    return
+                ctx.count(f"written:{stream}:inside")
+                if fields.get("text") != cps(text):
+                    ctx.corr_disagreements += 1
+                    ctx.violation("RenderWritable tree: decode() is not the text C04's writer writes under minimalChoices (render_is_written)",
+                                  case=dict(case, request=wreq), expected="writer: " + ascii(uncps_local(fields.get("text", "-"))),
+                                  observed="real: " + ascii(text), stream=stream, no_failing_input=True)
+                if got != want_w:
+                    ctx.violation("RenderWritable tree: the real re-parse is not the normal form (reparse_roundtrip_tokenized)",
+                                  case=case, expected=ascii(want_w), observed=ascii(got), stream=stream)
+            batch.add(wreq, on_written)
         if f != "minimal" and el_index != 0:
             continue
         # Lean side
